@@ -224,6 +224,31 @@ func (n *Node) receiver(sc *Scenario) *Build {
 }
 
 func execRoundTrip(n *Node, sc *Scenario) *Violation {
+	v := execRoundTripInner(n, sc)
+	if v != nil {
+		if v.Facts == nil {
+			v.Facts = map[string]string{}
+		}
+		v.Facts["decoder_path"] = "bytes"
+		if isStreamDecoder(sc.Decoder) {
+			v.Facts["decoder_path"] = "stream"
+		}
+		v.Facts["old_reader"] = fmt.Sprint(sc.OldPeer)
+		v.Facts["skew"] = "false"
+		if sc.OldPeer {
+			if sb, rb := n.Build(sc.Prog, sc.Mask, false), n.receiver(sc); sb != nil && rb != nil {
+				t := schema.Type{Named: sc.Type}
+				want := val.Normalise(sb.Schema, t, *sc.Value)
+				if val.HasSkew(sb.Schema, rb.Schema, t, want) {
+					v.Facts["skew"] = "true"
+				}
+			}
+		}
+	}
+	return v
+}
+
+func execRoundTripInner(n *Node, sc *Scenario) *Violation {
 	delete(sc.Extra, "skipped")
 	sb := n.Build(sc.Prog, sc.Mask, false)
 	rb := n.receiver(sc)
@@ -270,7 +295,7 @@ func execRoundTrip(n *Node, sc *Scenario) *Violation {
 	if sc.OldPeer {
 		expect = val.Restrict(sb.Schema, rb.Schema, t, want)
 	}
-	if d := val.Diff(rb.Schema, t, expect, val.Normalise(rb.Schema, t, got)); d != "" {
+	if d := val.Diff(rb.Schema, t, expect, val.Canon(rb.Schema, t, got)); d != "" {
 		return mismatch("value|"+sc.Decoder+"|"+pathShape(d)+"|"+diffWhat(d), fmt.Sprintf("%s -> %s: %s", sc.Encoder, sc.Decoder, d),
 			map[string]string{"op": sc.Decoder, "path": pathShape(d)})
 	}
@@ -576,7 +601,7 @@ func execWire(n *Node, sc *Scenario) *Violation {
 	if err != nil {
 		return mismatch("bridge|read", err.Error(), nil)
 	}
-	if d := val.Diff(b.Schema, t, want, val.Normalise(b.Schema, t, got)); d != "" {
+	if d := val.Diff(b.Schema, t, want, val.Canon(b.Schema, t, got)); d != "" {
 		return mismatch("refpeer-value|"+sc.Decoder+"|"+pathShape(d)+"|"+diffWhat(d), "reference -> "+sc.Decoder+": "+d, map[string]string{"op": sc.Decoder, "path": pathShape(d)})
 	}
 	return nil
